@@ -111,6 +111,8 @@ def run_case(case):
                         datas.append(('impulse(%d,%d)' % (a, b), e))
                 for name, phi in datas:
                     der = np.full((nz, nq), np.nan)
+                    if name in ('dense-third', 'strided-real-view'):
+                        der = np.full((nz, nq, 2), np.nan)[:, :, 0]          # a strided window of a larger array is a legal output too
                     evals += 1
                     if r0 > 0 or io != 0:
                         nontriv += 1
